@@ -305,6 +305,9 @@ func parent(p *Prop, tier string, seed int64, bsec int) int {
 				}
 			}
 		}
+		if len(merged.AutoSamples) < 6 {
+			merged.AutoSamples = append(merged.AutoSamples, r.AutoSamples...)
+		}
 		for _, c := range r.Capped {
 			found := false
 			for _, d := range merged.Capped {
@@ -460,6 +463,13 @@ func writeEvidence(root string, p *Prop, tier string, seed int64, m *Result, wal
 	samples := make([]any, 0, len(m.Samples))
 	for _, s := range m.Samples {
 		samples = append(samples, s)
+	}
+	if len(samples) == 0 {
+		// the property wrote out no samples itself: fall back to the identifying keys of the first
+		// non-trivial cases of this run
+		for _, k := range m.AutoSamples {
+			samples = append(samples, map[string]string{"nontrivial_case_key": k})
+		}
 	}
 	cov["samples"] = samples
 	cov["exhaustive"] = len(m.Capped) == 0
